@@ -11,20 +11,20 @@ const (
 )
 
 type reqPlan struct {
-	Method     string `json:"method"`
-	Authority  string `json:"authority"`   // authority of the absolute-form target ("" with OriginForm)
-	OriginForm bool   `json:"origin_form"` // origin-form target; the Host field names the host
-	HostField  string `json:"host_field"`  // value of the Host field
-	HostName   string `json:"host_name"`   // spelling of the field name "Host"
-	Path       string `json:"path"`        // may be empty with absolute-form
-	Query      string `json:"query"`       // including the leading "?" or empty
-	Auth       int    `json:"auth"`
-	Hdr        []kv   `json:"hdr"`  // every other field line, wire order, V includes leading/trailing OWS
-	HostPos    int    `json:"host_pos"` // position of the Host line among Hdr
+	Method     string   `json:"method"`
+	Authority  string   `json:"authority"`   // authority of the absolute-form target ("" with OriginForm)
+	OriginForm bool     `json:"origin_form"` // origin-form target; the Host field names the host
+	HostField  string   `json:"host_field"`  // value of the Host field
+	HostName   string   `json:"host_name"`   // spelling of the field name "Host"
+	Path       string   `json:"path"`        // may be empty with absolute-form
+	Query      string   `json:"query"`       // including the leading "?" or empty
+	Auth       int      `json:"auth"`
+	Hdr        []kv     `json:"hdr"`      // every other field line, wire order, V includes leading/trailing OWS
+	HostPos    int      `json:"host_pos"` // position of the Host line among Hdr
 	Body       bodySpec `json:"body"`
-	Expect     bool   `json:"expect"` // carries Expect: 100-continue; the client waits (bounded) for an interim response before the body
-	FrameName  string `json:"frame_name"` // spelling of Content-Length / Transfer-Encoding
-	FramePos   int    `json:"frame_pos"`
+	Expect     bool     `json:"expect"`     // carries Expect: 100-continue; the client waits (bounded) for an interim response before the body
+	FrameName  string   `json:"frame_name"` // spelling of Content-Length / Transfer-Encoding
+	FramePos   int      `json:"frame_pos"`
 }
 
 type interimPlan struct {
@@ -41,9 +41,9 @@ type respPlan struct {
 	Hdr           []kv          `json:"hdr"`
 	Body          bodySpec      `json:"body"`
 	FrameName     string        `json:"frame_name"`
-	HeadCL        int           `json:"head_cl"`     // Content-Length announced on a bodiless (HEAD/304) response; -1 none
+	HeadCL        int           `json:"head_cl"`        // Content-Length announced on a bodiless (HEAD/304) response; -1 none
 	CloseSilently bool          `json:"close_silently"` // origin closes after this response without saying so
-	TruncateAt    int           `json:"truncate_at"` // >=0: only this many bytes of the final response are written, then the origin closes
+	TruncateAt    int           `json:"truncate_at"`    // >=0: only this many bytes of the final response are written, then the origin closes
 }
 
 type transportPlan struct {
@@ -60,8 +60,8 @@ type transportPlan struct {
 type plan struct {
 	AuthEnabled bool          `json:"auth_enabled"`
 	Reqs        []reqPlan     `json:"reqs"`
-	Resps       []respPlan    `json:"resps"` // indexed by the ordinal of the request as the origin receives it
-	Window      int           `json:"window"` // max requests in flight from the client (pipelining depth)
+	Resps       []respPlan    `json:"resps"`        // indexed by the ordinal of the request as the origin receives it
+	Window      int           `json:"window"`       // max requests in flight from the client (pipelining depth)
 	ClientAbort int           `json:"client_abort"` // >=0: the client closes the whole connection after writing this many bytes
 	T           transportPlan `json:"t"`
 }
@@ -140,8 +140,8 @@ func (p *respPlan) finalWire(reqMethod string) []byte {
 	bodyless := reqMethod == "HEAD" || p.Status == 204 || p.Status == 304
 	var body []byte
 	if bodyless {
-		if p.HeadCL >= 0 {
-			lines = append(lines, kv{p.FrameName, " " + itoa(p.HeadCL)})
+		if p.HeadCL >= 0 && p.Status != 204 && p.Status != 304 {
+			lines = append(lines, kv{"Content-Length", " " + itoa(p.HeadCL)})
 		}
 	} else {
 		switch p.Body.Kind {
